@@ -113,7 +113,7 @@ func runCase(run *vh.Run, idx int, c Case) *obs {
 	defer func() {
 		// the Coq case: structured query, reference available, every union selection covers all members (the
 		// null thunder's executor renders for an uncovered member, DESIGN F5, is not part of the model's contract)
-		if searching || c.QueryText != "" || timedOut || g.sync.last == nil {
+		if searching || c.QueryText != "" || c.Mutation || timedOut || g.sync.last == nil {
 			return
 		}
 		// coverage of the unions once the directives are applied (a member fragment left without content covers nothing)
@@ -190,6 +190,27 @@ func runCase(run *vh.Run, idx int, c Case) *obs {
 		failCapped(run, idx, "gateway-request-hangs", text, c)
 		return ob
 	}
+	// kinds of the sub-queries: the steps directly below the root of a mutation are mutations, run once per
+	// request; every hop (a _federation sub-query for objects already returned) is a query
+	nMut := 0
+	for _, s := range ob.res.subs {
+		switch {
+		case isHop(s.Text) && s.Kind != "query":
+			failCapped(run, idx, "hop-subquery-sent-as-"+s.Kind, fmt.Sprintf("service %s got a %s {%s}; request: %s", s.Service, s.Kind, short(s.Text, 300), short(text, 300)), c)
+		case !isHop(s.Text) && s.Kind == "mutation":
+			nMut++
+		case !isHop(s.Text) && c.Mutation && s.Kind != "mutation":
+			failCapped(run, idx, "mutation-root-step-sent-as-"+s.Kind, fmt.Sprintf("service %s got a %s {%s}; request: %s", s.Service, s.Kind, short(s.Text, 300), short(text, 300)), c)
+		}
+	}
+	if c.Mutation {
+		run.Hist("query:mutation")
+		if gwErr == "" && nMut != 2 && nMut != 0 { // the request is executed twice (re-execution oracle); none when the directives leave nothing to run
+			failCapped(run, idx, "mutation-root-step-not-run-exactly-once", fmt.Sprintf("%d mutation sub-queries for 2 executions of %s", nMut, short(text, 300)), c)
+		}
+	} else if nMut > 0 {
+		failCapped(run, idx, "query-sent-as-mutation", short(text, 300), c)
+	}
 	for _, s := range ob.res.subs {
 		if s.Sig != "" {
 			failCapped(run, idx, s.Sig, fmt.Sprintf("service %s got {%s}: %s  (query: %s)", s.Service, short(s.Text, 300), s.Problem, short(text, 300)), c)
@@ -231,6 +252,8 @@ func runCase(run *vh.Run, idx int, c Case) *obs {
 		}
 		// a schema refresh landing between planning and the first hop changes nothing (last use of g)
 		defer refreshMidRequest(run, idx, &c, g, w, ob.res.subs, ob.res.plan, deepCopyJSON(gw))
+		// the caller gives up while a sub-query is in flight: an error, not a partial answer (runs before the refresh)
+		defer cancelMidRequest(run, idx, &c, g, ob.res.subs, deepCopyJSON(gw))
 		strips := unionTypenameStrips(&c, retMap(c.Services), frags)
 		gwN := normaliseUnions(stripAt(gw, "", strips), "", strips)
 		monoN := normaliseUnions(mono, "", strips)
